@@ -896,3 +896,43 @@ Proof.
     - unfold flush_dyn. fs. assert (E : (p s <? fsz s) = true) by lia. rewrite E. fs. auto. }
   destruct G as (G1 & G2 & G3). apply IH; rewrite ?G1, ?G2, ?G3; assumption.
 Qed.
+
+(* ================================================================ the length-carrying variants are the same functions *)
+Lemma ex_loop_f_eq C : forall fuel s l n, n = len l -> True -> ex_loop_f C fuel s l n = ex_loop C fuel s l.
+Proof.
+  induction fuel as [|f IH]; intros s l n Hn _; [reflexivity|].
+  cbn [ex_loop_f ex_loop]. subst n. destruct (fsz s - p s <? 0) eqn:E0; [reflexivity|].
+  destruct (fsz s - p s <? len l) eqn:E1; [|reflexivity].
+  match goal with |- (if ?c then _ else _) = _ => destruct c end; [reflexivity|].
+  apply IH; [|exact I]. rewrite len_skipn; lia.
+Qed.
+
+Lemma b64_loop_f_eq C : forall fuel s l n, n = len l -> b64_loop_f C fuel s l n = b64_loop C fuel s l.
+Proof.
+  induction fuel as [|f IH]; intros s l n Hn; [reflexivity|].
+  cbn [b64_loop_f b64_loop]. subst n. destruct (fsz s <? p s + len l) eqn:E0; [|reflexivity].
+  destruct (fsz s - p s <? 0) eqn:E1; [reflexivity|].
+  set (k := if fix_b64 C then (fsz s - p s + 3) / 4 * 4 else (fsz s - p s) / 4 * 4).
+  destruct (fix_b64 C && (len l <=? k)) eqn:E2; [reflexivity|].
+  match goal with |- (if ?c then _ else _) = _ => destruct c end; [reflexivity|].
+  destruct (Z_le_gt_dec k (len l)) as [Hk|Hk].
+  - apply IH. rewrite len_skipn; [reflexivity|]. unfold k. destruct (fix_b64 C); lia.
+  - (* only reachable for the pinned code with k > len l: cannot happen, k <= room < len l *)
+    exfalso. unfold k in Hk. destruct (fix_b64 C); cbn [andb] in E2; lia.
+Qed.
+
+Lemma step_f_eq C s x : step_f C s x = step C s x.
+Proof.
+  destruct x; try reflexivity; cbn [step_f step].
+  - unfold print_f, print, print_ex_f, print_ex. destruct (fsz s <=? p s + len l); [|reflexivity].
+    apply ex_loop_f_eq; [reflexivity|exact I].
+  - unfold print_indent_f, print_indent, print_ex_f, print_ex. destruct (fsz s <? p s + n); [|reflexivity].
+    apply ex_loop_f_eq; [rewrite len_spaces; reflexivity|exact I].
+  - unfold print_b64_f, print_b64. rewrite b64_loop_f_eq by reflexivity. reflexivity.
+Qed.
+
+Theorem run_f_eq C : forall ops s, run_f C ops s = run C ops s.
+Proof.
+  induction ops as [|x t IH]; intros s; [reflexivity|].
+  cbn [run_f run]. rewrite step_f_eq. destruct (step C s x); [apply IH|reflexivity].
+Qed.
